@@ -22,11 +22,19 @@ fn entry<'a>(d: &'a [DumpItem], key: &[u8]) -> Option<&'a DumpItem> {
     d.iter().find(|x| x.key == key)
 }
 
+/// "byte-for-byte unchanged (value, flags, CAS)" as C02/C06 put it
 fn same_entry(a: Option<&DumpItem>, b: Option<&DumpItem>) -> bool {
     match (a, b) {
         (None, None) => true,
-        (Some(x), Some(y)) => x.value == y.value && x.flags == y.flags && x.cas == y.cas && x.expiry() == y.expiry(),
+        (Some(x), Some(y)) => x.value == y.value && x.flags == y.flags && x.cas == y.cas,
         _ => false,
+    }
+}
+
+fn same_expiry(a: Option<&DumpItem>, b: Option<&DumpItem>) -> bool {
+    match (a, b) {
+        (Some(x), Some(y)) => x.expiry() == y.expiry(),
+        _ => true,
     }
 }
 
@@ -957,6 +965,13 @@ impl Model {
                 },
             },
             _ => unreachable!(),
+        }
+        // a rejected command must not move the item's expiry either (C05: nothing prolongs a life)
+        if !success && !is_get && unchanged && !same_expiry(before_e, after_e) && ev.viol.is_empty() {
+            ev.viol.push(v(
+                "rejected-changed-expiry",
+                format!("rejected {} changed the item's expiry: {:?} -> {:?}", name, before_e.map(|d| d.expiry()), after_e.map(|d| d.expiry())),
+            ));
         }
         ev
     }
